@@ -34,6 +34,8 @@ pub struct Accepted<'a, 'b> {
     pub hole_copies: u64, // H2 events during type checking
     pub source_has_holes: bool,
     pub unresolved_after: bool,
+    // number of hole cells of the source program: cells with a larger id were created by the checker
+    pub source_cells: usize,
 }
 
 // Run the real front end on a source text.
@@ -56,6 +58,7 @@ pub fn front_end<R>(src: &str, f: impl FnOnce(FrontEnd) -> R) -> R {
     };
     let mut mir = Mirror::new();
     let source = mir.mirror(&term);
+    let source_cells = mir.cells_seen();
     let copies_before = crate::verif_hooks::hole_copies();
     let r = bind::guard(|| {
         let mut tc = vec![];
@@ -78,6 +81,7 @@ pub fn front_end<R>(src: &str, f: impl FnOnce(FrontEnd) -> R) -> R {
                 elab_real: &elab,
                 ty_real: &ty,
                 hole_copies,
+                source_cells,
             };
             f(FrontEnd::Accepted(acc))
         }
@@ -148,7 +152,41 @@ pub fn real_checker_rejects_elaborated(elab: &M) -> bool {
 // checked (hook H2), so one `_` could be solved twice; the model of the defect: the hook fired, and
 // the real checker itself rejects the elaborated term once its solved holes are explicit.
 pub fn is_hole_copy_defect(acc: &Accepted) -> bool {
-    crate::findings::is_known("F-HOLE-COPY") && acc.hole_copies > 0 && acc.source_has_holes && real_checker_rejects_elaborated(&acc.elab)
+    if !(crate::findings::is_known("F-HOLE-COPY") && acc.hole_copies > 0 && acc.source_has_holes) {
+        return false;
+    }
+    if real_checker_rejects_elaborated(&acc.elab) {
+        return true;
+    }
+    // or: the original of a copied hole stayed unsolved, and that is all that is wrong: with
+    // unresolved holes read as wildcards the reference accepts the elaborated term at the reported type
+    if acc.unresolved_after {
+        let mut ck = Checker::new(TYPING_FUEL);
+        ck.holes_are_wildcards = true;
+        if let Ok(v) = ck.infer(&typing::Ctx::empty(), &acc.elab) {
+            let tv = ck.eval(&typing::Env::Nil, &acc.ty);
+            return ck.conv(0, &v, &tv) && !ck.exhausted;
+        }
+    }
+    false
+}
+
+fn max_hole_id(m: &M) -> Option<usize> {
+    match m {
+        M::Hole(c, _) => Some(*c),
+        M::Lam(_, _, a, b) | M::Pi(_, _, a, b) | M::App(a, b) | M::Bin(_, a, b) => max_hole_id(a).max(max_hole_id(b)),
+        M::Let(ds, b) => ds.iter().map(|(_, a, d)| max_hole_id(a).max(max_hole_id(d))).max().flatten().max(max_hole_id(b)),
+        M::Neg(a) => max_hole_id(a),
+        M::If(a, b, c) => max_hole_id(a).max(max_hole_id(b)).max(max_hole_id(c)),
+        _ => None,
+    }
+}
+
+// The other face of F-HOLE-COPY: the reported type (or the elaborated term) still contains an
+// unresolved cell that is not one of the source program's holes, and `open` copied holes while the
+// program was checked: the solution went to the original, the copy stayed empty.
+pub fn has_orphan_copy(acc: &Accepted, m: &M) -> bool {
+    crate::findings::is_known("F-HOLE-COPY") && acc.hole_copies > 0 && max_hole_id(m).is_some_and(|id| id >= acc.source_cells)
 }
 
 // ------------------------------------------------------------------------------------------------
